@@ -162,6 +162,6 @@ def case_longkernel(rng: Any, ctx: Ctx, index: int) -> None:
 
 def run(ctx: Ctx) -> None:
     enable('mvref')
-    drive(ctx, case_longkernel, 16, 64, stream=2, part='apply')
+    drive(ctx, case_longkernel, 8, 48, stream=2, part='apply')
     drive(ctx, case, 1600, 20000, stream=0, part='apply')
     drive(ctx, case_reject, 200, 1000, stream=1, part='reject')
